@@ -1059,6 +1059,31 @@ def desugar_combinators(raw):
                 used_closures.add(cid)
                 hosts.add(body["id"])
                 n_done += 1
+            elif t["callee"].get("kind") == "indirect" and t["callee"].get("op", {}).get("k") in ("copy", "move") and not dest["proj"]:
+                # a call through a function pointer whose value is known: a variant constructor handed
+                # down as `fn(String) -> Reply` builds that variant
+                cur = t["callee"]["op"]
+                ctor = None
+                for _ in range(6):
+                    if cur["k"] == "const":
+                        ctor = (cur.get("fn") or {}).get("path")
+                        break
+                    if cur["k"] not in ("copy", "move") or cur["place"]["proj"]:
+                        break
+                    dfn = _single_assign(body, cur["place"]["local"])
+                    if dfn is None or dfn[0] != "assign" or dfn[1]["k"] not in ("use", "cast"):
+                        break
+                    cur = dfn[1]["op"]
+                if ctor and "::" in ctor:
+                    adt_path, vname = ctor.rsplit("::", 1)
+                    adt = next((a for a in raw["adts"] if a["path"] == adt_path and a["kind"] == "enum"), None)
+                    var = next((v for v in adt["variants"] if v["name"] == vname), None) if adt else None
+                    if var is not None and len(var["fields"]) == len(args):
+                        blk["stmts"].append(_assign(copy.deepcopy(dest), {"k": "aggregate", "kind": {"k": "adt", "adt": adt_path, "variant": vname, "idx": var["idx"],
+                                                                                          "fields": [fl["name"] for fl in var["fields"]]}, "ops": copy.deepcopy(args)}, span))
+                        blk["term"] = {"k": "goto", "target": cont, "span": span}
+                        hosts.add(body["id"])
+                        n_done += 1
             elif path in ("std::option::Option::<T>::zip",) and len(args) == 2 and all(a["k"] in ("copy", "move") and not a["place"]["proj"] for a in args):
                 # a.zip(b)  ->  match (a, b) { (Some(x), Some(y)) => Some((x, y)), _ => None }
                 la, lb = args[0]["place"]["local"], args[1]["place"]["local"]
